@@ -22,7 +22,7 @@ func indexSep(pat string) (int, int) {
 			if pat[i+1] == '/' {
 				return n - len(pat[i:]), 2
 			}
-			pat = pat[i+1:]
+			pat = pat[i+2:]
 		default:
 			return n - len(pat[i:]), 1
 		}
